@@ -173,6 +173,30 @@ PROPS["C07"] = {
     "trusted_base": ["model MsiModel/Category.lean, MsiModel/Column.lean", "Gen/Category.lean, Gen/Column.lean regenerated", "reference grammars harness/src/colfmt.rs"],
     "assumptions": ["a leading '+' in Integer/DoubleInteger text is not covered by the documented grammar (three-valued oracle)"],
 }
+PROPS["C11"] = {
+    "module": "MsiProofs.Props.C11",
+    "gen": ["streamname"],
+    "profiles": ["dev"],
+    "theorems": [
+        "MsiProofs.C11.constants", "MsiProofs.C11.toB64_lt", "MsiProofs.C11.fromB64_toB64",
+        "MsiProofs.C11.encode_codepoints_valid", "MsiProofs.C11.decodeAux_encodeAux", "MsiProofs.C11.decode_encode",
+        "MsiProofs.C11.encode_injective", "MsiProofs.C11.encodeAux_chars", "MsiProofs.C11.special_has_packable",
+        "MsiProofs.C11.separated",
+    ],
+    "level_text": "Lean theorems about the stream-name codec for every name: decode(encode n) = n on every accepted name, hence accepted names never "
+                  "collide or alias; every code point the encoder builds is a valid scalar (the unwraps cannot fail); encoded user names never equal a "
+                  "summary/signature stream name, never start with the table marker, contain no container-reserved character and fit 31 UTF-16 units; "
+                  "tie: is_valid/encode/decode of the real crate (cfg(msi_verif) hook) vs model on all short names over an adversarial alphabet, every "
+                  "length to beyond the limit, random names; oracle: collisions under the container's comparison, separation, decode round trip.",
+    "level_note": "Trusted: Lean kernel, translator (bases, ranges, reserved set, special names), hand model. Partial: the stream-contents half of the "
+                  "property (listing = live names, read = last write, independence from tables, signature removal) needs the package model and is "
+                  "not yet decided here.",
+    "technique": "Lean 4 proof (codec round trip by functional induction, injectivity, separation) + bounded-exhaustive differential testing",
+    "rule": "all names of length <= 3 (quick) / 4 (thorough) over 28 characters x {is_valid, encode, decode}; every length 0..70 for packable, unpackable, "
+            "2-byte and astral characters, as stream and as table name; seeded random names. non-trivial = distinct accepted names",
+    "trusted_base": ["model MsiModel/StreamName.lean", "Gen/StreamName.lean regenerated from src/internal/streamname.rs", "cfb 0.10 name comparison as restated in the oracle"],
+    "assumptions": ["the container compares names by (UTF-16 length, upper-cased text)"],
+}
 
 # reasons for properties not claimed (yet); everything else defaults to "not yet built"
 NOT_CLAIMED = {}
